@@ -281,6 +281,23 @@ pub fn run(opts: &Opts) -> Report {
                 }
                 check_all(&mut rep, &w, &cfgname, "annotated", n <= 4);
                 check_positions(&mut rep, &w, &cfgname, text, &ranges);
+                // the text of a resource is replaced (`with_string` on a resource that has a text, nothing annotated on it
+                // yet): what was derived from the old text (milestones) is gone, the answers are those of the new text
+                if (ti + ci) % 3 == 1 || n <= 2 {
+                    for first in ["abcdefghijklmnop".to_string(), "\u{1F600}".repeat(n + 3), format!("{}\u{20ac}x", text)] {
+                        let cfg = Config::default().with_milestone_interval(*iv).with_shrink_to_fit(shrink);
+                        let built = guarded(std::panic::AssertUnwindSafe(|| {
+                            let r = TextResource::from_string("r", first.clone(), cfg.clone()).with_string(text.clone());
+                            let mut store = AnnotationStore::new(cfg.clone());
+                            store.insert(r).map(|_| store).map_err(|e| format!("{}", e))
+                        }));
+                        rep.count("text-replaced");
+                        match built {
+                            Ok(Ok(store)) => { let w2 = W { store, widths: text.chars().map(|c| c.len_utf8()).collect(), text: text.to_string() }; check_all(&mut rep, &w2, &cfgname, "text-replaced", false); }
+                            other => rep.fail("oracle", "utf8/text-replaced/cannot-build", vec![format!("first={:?} text={:?} config={}", first, text, cfgname)], "a resource with the new text", &format!("{:?}", other.map(|r| r.map(|_| ())))),
+                        }
+                    }
+                }
                 // the configuration of a live store is replaced (Configurable::set_config): the indices were built under
                 // the old settings, the answers must not change
                 if (ti + ci) % 2 == 0 {
